@@ -32,7 +32,7 @@ ASSUMPTIONS = ["pyfftw replaced by a scipy.fft stand-in (numerically equivalent 
                "workers share nothing but the output / QC files", "the batch-wise reference re-uses the repository's own per-batch building blocks (saturation, fshift, "
                "kfilt/car): it judges the batching / seek / stitch logic, not the DSP (C05, C16 do)"]
 REQUIRED = {"configs": 4, "explicit_width_configs": 3, "stale_output_checked": 4, "width_compared": 3, "workers_probed": 10, "write_rows_judged": 50000, "orders_executed": 8, "sync_columns_compared": 4, "reference_compared": 4,
-            "saturated_samples": 10, "reject_runs_with_bad_channels": 1, "custom_filter_settings": 1, "compressed_inputs": 2, "inputs_with_inconsistent_metadata": 2}
+            "saturated_samples": 10, "reject_runs_with_bad_channels": 1, "custom_filter_settings": 1, "compressed_inputs": 2, "inputs_with_inconsistent_metadata": 2, "qc_files_after_rerun": 6}
 CASE_TIMEOUT = 400.0
 MAX_PROCS = 10
 TAPER = 1024
@@ -425,13 +425,24 @@ def run_case(case):
             if img1 is not None:
                 os_ = d / "stale" / "out.bin"
                 os_.parent.mkdir()
-                os_.write_bytes(rng.integers(0, 256, len(base) + rowbytes * int(rng.integers(1, 700)), dtype=np.uint8).tobytes())
                 try:
                     Scheduler.mode, Scheduler.order = "inorder", None
+                    # ... and the folder is the one of an EARLIER run of the same recording made with smaller batches (round 20): more batches, hence more
+                    # rows in every per-batch file that run left behind (working files included)
+                    nb0 = max(3072, nbatch // 2)
+                    K0 = len(canonical_batches(ns, nb0))
+                    run_destripe(V, b, os_, nb0, 1, opts)
+                    os_.write_bytes(rng.integers(0, 256, len(base) + rowbytes * int(rng.integers(1, 700)), dtype=np.uint8).tobytes())
                     run_destripe(V, b, os_, nbatch, min(nw, 2), opts)
                     got = os_.read_bytes()
                     res.check(got == base, "output:stale-file-not-replaced", f"{label}: a run over an existing output of {len(got) - len(base)} more bytes "
                               f"leaves {len(got)} bytes, a fresh run gives {len(base)}", counter="stale_output_checked")
+                    if K0 > K:
+                        for qf in ("_iblqc_ephysTimeRmsAP.rms.npy", "_iblqc_ephysTimeRmsAP.timestamps.npy", "_iblqc_ephysSaturation.samples.npy"):
+                            q1, q2 = np.load(o1.parent / qf), np.load(os_.parent / qf)
+                            res.check(q1.shape == q2.shape and np.array_equal(q1, q2), "qc:rows:rerun-in-used-folder", f"{label}: {qf} of a run into the folder of an earlier run with "
+                                      f"{K0} batches has shape {q2.shape}, the same run into a fresh folder gives {q1.shape}" + ("" if q1.shape != q2.shape else " (other values)"),
+                                      counter="qc_files_after_rerun")
                 except Exception as e:
                     res.exception("output:stale:exception", e, label)
                 shutil.rmtree(os_.parent, ignore_errors=True)
